@@ -33,7 +33,7 @@ macro_rules! record_fn {
                 bounds: vec![],
                 nobounds: true,
                 polys: vec![],
-                rng: false, wf: true,
+                rng: false, wf: true, note: String::new(),
                 ops: vec![],
                 adv: vec![],
                 expect: Default::default(),
